@@ -243,15 +243,9 @@ fn parse_outcome(exit_code: Option<i32>, stdout: &str, stderr: &str, timed_out: 
         });
     let mut errors: Vec<String> = Vec::new();
     let mut current: Option<String> = None;
-    let mut in_list = false;
     for line in stderr.lines() {
-        if line.ends_with("happened:") && line.contains(" error") {
-            in_list = true;
-            continue;
-        }
-        if !in_list {
-            continue;
-        }
+        // every failing file is listed as `-> <error>`; continuation lines belong to the
+        // error above them; the wording of the header line does not matter
         if let Some(rest) = line.strip_prefix("-> ") {
             if let Some(done) = current.take() {
                 errors.push(done);
